@@ -1,7 +1,7 @@
 #!/usr/bin/env python3
 """Runs the checks against harmless (property-preserving) changes and records which checks stay silent.
 
-usage: benign_eval.py <root> [area ...]
+usage: [BENIGN_SUFFIX=b] benign_eval.py <root> [area ...]   (suffix: names of a further round, e.g. queue-1b)
   <root>/<area>/<k>/{patch.diff, meta.json} as produced by a sub-agent (meta.json lists the properties
   the change must preserve).  For each: the patch is confirmed to build and pass the suite in a scratch
   worktree, applied to /repo, the listed checks are run (quick tier, no escalation search, evidence
@@ -25,7 +25,7 @@ def main():
             patch = os.path.join(d, "patch.diff")
             if not os.path.exists(patch):
                 continue
-            name = f"{area}-{k}"
+            name = f"{area}-{k}{os.environ.get('BENIGN_SUFFIX', '')}"
             dst = os.path.join(ROOT, "benign", name)
             if os.path.exists(os.path.join(dst, "meta.json")):
                 continue
